@@ -1268,4 +1268,104 @@ theorem step_connect_holds (k : Nat) (p cid : Str) (s : Server) (conn : Nat) (k'
     · exact h'.holds
   · exact h'.holds
 
+/-- `admitA` followed by the teardown of the taken-over handler (no CONNACK yet): `connectHold` at stage 2 -/
+theorem admitAD_holds (k : Nat) (p cid : Str) (s : Server) (n : Nat) (k' : Connect) (i : Nat) (hw : WF s)
+    (hn : n < s.objs.length) (hnid : (getObj s n).id = k'.id) (hni : n ≠ i)
+    (h : HoldsAt s cid k p i) (hne : ¬ EndsTakeover s cid k') :
+    HoldsAt (match (admitA s n k').2.2.2 with
+      | some e => (detach (admitA s n k').1 e true).1
+      | none => (admitA s n k').1) cid k p (if k'.id = cid then n else i) := by
+  obtain ⟨hA1, hA2, hA3, hA4⟩ := admitA_walk k s n k'
+  have hil := h.lt hw
+  have w1 : WF (admitA s n k').1 := admitA_wf s n k' hw hn hnid
+  have k1 : Keep s (admitA s n k').1 := admitA_keep s n k'
+  have H1 : HoldsAt (admitA s n k').1 cid k p (if k'.id = cid then n else i) ∧
+      (k'.id = cid → (getObj (admitA s n k').1 i).takenOver = true) := by
+    by_cases hk : k'.id = cid
+    · rw [if_pos hk]
+      have hreg : assocGet s.clients k'.id = some i := by rw [hk]; exact h.1
+      have hE : ¬ (k'.clean = true ∨ ((getObj s i).clean && decide ((getObj s i).ver < 5)) = true) := by
+        intro x
+        apply hne
+        refine ⟨hk, ?_⟩
+        rcases x with x | x
+        · exact Or.inl x
+        · right
+          rw [h.1]
+          exact x
+      have hclean : k'.clean = false := Bool.eq_false_iff.mpr (fun e => hE (Or.inl e))
+      have h3 : ((getObj s i).clean && decide ((getObj s i).ver < 5)) = false :=
+        Bool.eq_false_iff.mpr (fun e => hE (Or.inr e))
+      refine ⟨⟨by rw [hA1, assocGet_assocSet, if_pos hk.symm], hA3 i hreg hni hn hclean h3 p h.2⟩,
+        fun _ => hA4 i hreg hni hil⟩
+    · rw [if_neg hk]
+      have hnreg : assocGet s.clients k'.id ≠ some i := fun x => hk (hw.reg_unique x h.1)
+      exact ⟨⟨by rw [hA1, assocGet_assocSet, if_neg (fun x => hk x.symm)]; exact h.1,
+        (hA2 i (Ne.symm hni) hnreg).keep p h.2⟩, fun x => absurd x hk⟩
+  generalize (if k'.id = cid then n else i) = j at H1 ⊢
+  cases hex : (admitA s n k').2.2.2 with
+  | none => exact H1.1
+  | some e =>
+    have he := admitA_exLive_cnt s n k' e hex
+    have hide : (getObj s e).id = k'.id := (hw.clients_valid _ _ (assocGet_mem _ _ _ he)).2
+    exact detach_holds k p cid _ e true j H1.1 (H1.1.id w1) (by
+      intro hid
+      have hk : k'.id = cid := by rw [← hide, ← k1.ids e]; exact hid
+      have hei : e = i := by
+        rw [hk, h.1] at he; cases he; rfl
+      unfold endsWithConn0
+      rw [hei, H1.2 hk]; simp)
+
+theorem step_connectHold_holds (k : Nat) (p cid : Str) (s : Server) (conn : Nat) (k' : Connect) (stage : Nat)
+    (hw : WF s) (hf : conn ∉ s.connOf.map (·.1)) (h : Holds s cid k p)
+    (hne : ¬ Ends s cid k (.connectHold conn k' stage)) :
+    Holds (step s (.connectHold conn k' stage)).1 cid k p := by
+  obtain ⟨i, h⟩ := h
+  have h : HoldsAt s cid k p i := h
+  rw [step]
+  unfold connectHold
+  extract_lets +onlyGivenNames c n s1 dec
+  have w1 : WF s1 := hw.addObj c conn (parseConnect_wf s conn k') hf
+  have hil := h.lt hw
+  have ho : ∀ e, e < s.objs.length → getObj s1 e = getObj s e :=
+    fun e he => getObj_append_lt (s := s) (s' := s1) (c := c) rfl e he
+  have h1 : HoldsAt s1 cid k p i := ⟨h.1, by rw [ho i hil]; exact h.2⟩
+  have hn : n < s1.objs.length := by
+    show s.objs.length < (s.objs ++ [c]).length
+    simp
+  have hnid : (getObj s1 n).id = k'.id := by
+    rw [getObj_append_eq (s := s) (s' := s1) (c := c) rfl]; rfl
+  have hni : n ≠ i := Nat.ne_of_gt hil
+  have hpend : ∀ (P : List Pending), HoldsAt { s1 with pending := P } cid k p i :=
+    fun P => h1.of_surv ((Surv.refl k s1).upd rfl) rfl
+  have hdec : dec = refuseCode s1 k' c := rfl
+  clear_value dec
+  cases dec with
+  | some code =>
+    dsimp only
+    refine ite_fst_prop (P := fun x => Holds x cid k p) _ _ _ ?_ ?_
+    · exact (hpend _).holds
+    · exact (h1.of_surv (stopClient_sv k s1 n) (stopClient_quiet s1 n).clients).holds
+  | none =>
+    dsimp only
+    by_cases hst : (stage == 1) = true
+    · rw [if_pos hst]
+      exact (hpend _).holds
+    · rw [if_neg hst]
+      have hET : ¬ EndsTakeover s1 cid k' := by
+        intro x
+        apply hne
+        refine ⟨by simpa using hst, ?_, ?_⟩
+        · rw [← refuseCode_congr_sv (s := s) (s' := s1) rfl rfl rfl]; exact hdec.symm
+        · exact EndsTakeover_congr (s := s) (s' := s1) rfl
+            (fun e he => ho e (hw.clients_valid cid e (assocGet_mem _ _ _ he)).1) x
+      have key := admitAD_holds k p cid s1 n k' i w1 hn hnid hni h1 hET
+      split
+      · rename_i e hA
+        rw [hA] at key
+        exact (HoldsAt.of_surv (s' := _) key ((Surv.refl k _).upd rfl) rfl).holds
+      · rename_i hA
+        rw [hA] at key
+        exact (HoldsAt.of_surv (s' := _) key ((Surv.refl k _).upd rfl) rfl).holds
+
 end Mochi.Broker
